@@ -26,6 +26,11 @@ def run(ctx: Ctx):
         "grid; NORM: index = 100 (N/colbase)/baseline on the base blocks; NaN subtotals; FLOW: the baseline depends on "
         "no display transform."
     )
+    # first: the public accessors each have a cache slot of their own (attributes produced by one lazyproperty factory share
+    # the slot of the wrapped function's name - `column_index` would return whatever `smoothed_column_index` cached)
+    from .common import shared_cache_slots
+
+    shared_cache_slots(ctx, "public-alias.cache-slot", "cubepart.py", "_Slice", ("column_index", "smoothed_column_index"))
     baselines(ctx)
     source_table(ctx)
     factory(ctx)
